@@ -1,3 +1,742 @@
-//! C13 — not built yet.
-pub const BUILT: bool = false;
-pub fn run(_rep: &mut vx::Report) {}
+//! C13 — text in embedded fonts is recoverable exactly.
+//!
+//! Space (all enumerated, nothing sampled):
+//!  * `one-font`: each bundled font (Roboto-Regular.ttf → CIDFontType2, SourceSans3-Regular.otf
+//!    → CIDFontType0) × every string of length 0..=3 over an 8-character alphabet (digits 1
+//!    and 2 — consecutive codes of equal width —, composite-accented Latin, space, fi ligature,
+//!    Cyrillic, Greek Omega, Ohm sign — a second code point on the SAME glyph), repeats included.
+//!  * `two-fonts`: one page carrying a string in Roboto and a string in SourceSans3:
+//!    quick: every pair of strings of length 0..=2 (73 × 73); thorough: every pair in which at
+//!    least one string has length <= 2 and the other length <= 3 (585 × 73 + 73 × 512).
+//!  * `astral`: strings over {1, U+1F16A} of length 1..=2 containing the astral character —
+//!    recorded, not asserted (a 2-byte Identity-H code cannot address a CID above 0xFFFF).
+//! The document is authored with the public API (`Document::add_font_from_bytes`,
+//! `Page::text().set_font(Font::Custom).at().write()`, `Document::to_bytes`).
+//! Oracle per case:
+//!  (i)  the library's `TextExtractor` (via `PdfDocument::extract_text_from_page`) returns
+//!       the drawn string(s);
+//!  (ii) an independent extractor — refpdf::file (xref, page tree, resources, stream
+//!       decoding), refpdf::content (operators), refpdf::cmap (ToUnicode) — returns them:
+//!       Tj/TJ string bytes → 2-byte codes (Encoding must be Identity-H) → ToUnicode;
+//!  (iii) for every code shown, the /W entry of its CID (or /DW) equals the ORIGINAL font's
+//!       hmtx advance × 1000 / unitsPerEm within 1 unit;
+//!  (iv) every CID reaches, through CIDToGIDMap (CIDFontType2) or the CFF charset
+//!       (CIDFontType0 with a CID-keyed CFF), a glyph that exists in the embedded font
+//!       program and whose flattened outline equals the outline of the glyph the ORIGINAL
+//!       font maps the drawn character to (refpdf::ttf / refpdf::cff).
+use oxidize_pdf::parser::{PdfDocument, PdfReader};
+use oxidize_pdf::{Document, Font as LibFont, Page};
+use refpdf::cff::Cff;
+use refpdf::cmap::{CMap, Value};
+use refpdf::content::parse_content;
+use refpdf::file::PdfFile;
+use refpdf::syntax::Obj;
+use refpdf::ttf::{self, Font};
+use serde_json::json;
+use std::collections::BTreeMap;
+use std::io::Cursor;
+use vx::{Ctx, Explore, Report};
+
+pub const BUILT: bool = true;
+
+/// '1','2': consecutive code points with equal advance (→ `cfirst clast w` in /W, bfrange in
+/// ToUnicode); é: composite glyph in Roboto; space: empty glyph; U+FB01: ligature far up the
+/// BMP; Ж: Cyrillic; Ω and U+2126: two code points on one glyph.
+const ALPHABET: [char; 8] = ['1', '2', '\u{E9}', ' ', '\u{FB01}', '\u{416}', '\u{3A9}', '\u{2126}'];
+const ASTRAL: char = '\u{1F16A}';
+
+// ------------------------------------------------------------------------------------
+// reference view of a font program (outline + advance), cf. C12
+
+#[derive(Clone, Debug, PartialEq)]
+enum Shape {
+    Tt(ttf::Outline),
+    Cff(Vec<refpdf::cff::PathOp>),
+}
+impl Shape {
+    fn diff(&self, o: &Shape) -> Option<String> {
+        match (self, o) {
+            (Shape::Tt(a), Shape::Tt(b)) => ttf::outline_diff(a, b),
+            (Shape::Cff(a), Shape::Cff(b)) => refpdf::cff::path_diff(a, b),
+            _ => Some("outline kinds differ".into()),
+        }
+    }
+}
+
+enum Program {
+    Tt(Font),
+    OtfCff(Font, Cff),
+    RawCff(Cff),
+}
+impl Program {
+    fn open_sfnt(b: &[u8]) -> Result<Program, String> {
+        let f = Font::parse(b)?;
+        if f.is_glyf() {
+            Ok(Program::Tt(f))
+        } else {
+            let c = Cff::parse(f.sfnt.need_table(b"CFF ")?)?;
+            Ok(Program::OtfCff(f, c))
+        }
+    }
+    fn num_glyphs(&self) -> usize {
+        match self {
+            Program::Tt(f) | Program::OtfCff(f, _) => f.num_glyphs as usize,
+            Program::RawCff(c) => c.num_glyphs(),
+        }
+    }
+    fn shape(&self, gid: usize) -> Result<Shape, String> {
+        match self {
+            Program::Tt(f) => f.flatten(gid as u16).map(Shape::Tt),
+            Program::OtfCff(_, c) | Program::RawCff(c) => c.glyph(gid).map(|g| Shape::Cff(g.path)),
+        }
+    }
+    fn advance(&self, gid: usize) -> Result<f64, String> {
+        match self {
+            Program::Tt(f) | Program::OtfCff(f, _) => f.advance(gid as u16).map(|a| a as f64),
+            Program::RawCff(c) => c.glyph(gid).map(|g| g.width),
+        }
+    }
+}
+
+struct Original {
+    res_name: &'static str,
+    file: &'static str,
+    data: Vec<u8>,
+    program: Program,
+    cmap: ttf::Cmap,
+    upem: f64,
+}
+impl Original {
+    fn bundled(res_name: &'static str, file: &'static str) -> Original {
+        let p = vx::repo_root().join("test-pdfs").join(file);
+        let data = std::fs::read(&p).unwrap_or_else(|e| panic!("{}: {e}", p.display()));
+        let program = Program::open_sfnt(&data).unwrap_or_else(|e| panic!("reference reader cannot open {file}: {e}"));
+        let (cmap, upem) = match &program {
+            Program::Tt(f) | Program::OtfCff(f, _) => (f.cmap().expect("cmap"), f.units_per_em as f64),
+            _ => unreachable!(),
+        };
+        Original { res_name, file, data, program, cmap, upem }
+    }
+    fn gid(&self, ch: char) -> usize {
+        self.cmap.unicode_lookup(ch as u32).unwrap_or(0) as usize
+    }
+}
+
+// ------------------------------------------------------------------------------------
+// independent reading of the written file
+
+struct ShownText {
+    /// resource name given to Tf
+    font_res: Vec<u8>,
+    /// concatenated string bytes of the Tj/TJ/'/" operators of one text object
+    bytes: Vec<u8>,
+}
+
+struct EmbeddedFont {
+    encoding: Vec<u8>,
+    to_unicode: Option<CMap>,
+    subtype: Vec<u8>,
+    dw: f64,
+    w: Obj,
+    /// CIDToGIDMap: None = absent, Some(None) = /Identity, Some(Some(bytes)) = stream
+    cid_to_gid: Option<Option<Vec<u8>>>,
+    program: Result<Program, String>,
+    program_kind: String,
+}
+
+fn read_font(f: &PdfFile, font: &Obj) -> Result<EmbeddedFont, String> {
+    let name = |o: Obj| o.as_name().map(|n| n.to_vec()).unwrap_or_default();
+    if name(f.dget(font, "Subtype")) != b"Type0" {
+        return Err(format!("font /Subtype is {:?}, expected Type0", String::from_utf8_lossy(&name(f.dget(font, "Subtype")))));
+    }
+    let encoding = name(f.dget(font, "Encoding"));
+    let to_unicode = match f.dget(font, "ToUnicode") {
+        Obj::Stream(s) => Some(CMap::parse(&f.stream_data(&s)?).map_err(|e| format!("ToUnicode CMap does not parse: {e}"))?),
+        Obj::Null => None,
+        o => return Err(format!("/ToUnicode is a {}", o.type_name())),
+    };
+    let desc_arr = f.dget(font, "DescendantFonts");
+    let d = desc_arr.as_array().and_then(|a| a.first()).map(|o| f.resolve(o)).ok_or("no /DescendantFonts[0]")?;
+    let subtype = name(f.dget(&d, "Subtype"));
+    let dw = f.dget(&d, "DW").as_num().unwrap_or(1000.0);
+    let w = f.deep_resolve(&f.dget(&d, "W"), 3);
+    let cid_to_gid = match f.dget(&d, "CIDToGIDMap") {
+        Obj::Null => None,
+        Obj::Name(n) if n == b"Identity" => Some(None),
+        Obj::Stream(s) => Some(Some(f.stream_data(&s)?)),
+        o => return Err(format!("/CIDToGIDMap is a {}", o.type_name())),
+    };
+    let fd = f.dget(&d, "FontDescriptor");
+    let (program, program_kind) = if let Obj::Stream(s) = f.dget(&fd, "FontFile2") {
+        (f.stream_data(&s).and_then(|b| Program::open_sfnt(&b)), "FontFile2".to_string())
+    } else if let Obj::Stream(s) = f.dget(&fd, "FontFile3") {
+        let st = name(f.resolve_opt(s.dict.get("Subtype")));
+        let kind = format!("FontFile3/{}", String::from_utf8_lossy(&st));
+        let p = f.stream_data(&s).and_then(|b| match st.as_slice() {
+            b"CIDFontType0C" | b"Type1C" => Cff::parse(&b).map(Program::RawCff),
+            b"OpenType" => Program::open_sfnt(&b),
+            other => Err(format!("FontFile3 /Subtype {:?}", String::from_utf8_lossy(other))),
+        });
+        (p, kind)
+    } else {
+        (Err("FontDescriptor has neither FontFile2 nor FontFile3".to_string()), "none".to_string())
+    };
+    Ok(EmbeddedFont { encoding, to_unicode, subtype, dw, w, cid_to_gid, program, program_kind })
+}
+
+impl EmbeddedFont {
+    /// ISO 32000-1 §9.7.4.3: `c [w1 w2 ...]` and `cfirst clast w`.
+    fn width(&self, cid: u32) -> Result<f64, String> {
+        let Some(a) = self.w.as_array() else { return Ok(self.dw) };
+        let mut i = 0;
+        let mut found = None;
+        while i < a.len() {
+            let c = a[i].as_int().ok_or("/W: expected an integer CID")? as u32;
+            match a.get(i + 1) {
+                Some(Obj::Array(ws)) => {
+                    if cid >= c && ((cid - c) as usize) < ws.len() {
+                        found = Some(ws[(cid - c) as usize].as_num().ok_or("/W: width not a number")?);
+                        bump(&forms().w_array_form);
+                    }
+                    i += 2;
+                }
+                Some(o) => {
+                    let last = o.as_int().ok_or("/W: expected clast")? as u32;
+                    let w = a.get(i + 2).and_then(|x| x.as_num()).ok_or("/W: expected w after cfirst clast")?;
+                    if cid >= c && cid <= last {
+                        found = Some(w);
+                        bump(&forms().w_range_form);
+                    }
+                    i += 3;
+                }
+                None => return Err("/W: dangling CID".into()),
+            }
+        }
+        if found.is_none() {
+            bump(&forms().w_default);
+        }
+        Ok(found.unwrap_or(self.dw))
+    }
+
+    /// Glyph a CID selects in the embedded program (§9.7.4.2).
+    fn gid_of_cid(&self, cid: u32) -> Result<usize, String> {
+        let prog = self.program.as_ref().map_err(|e| format!("embedded font program unreadable: {e}"))?;
+        match self.subtype.as_slice() {
+            b"CIDFontType2" => match &self.cid_to_gid {
+                Some(Some(map)) => {
+                    bump(&forms().cid_to_gid_stream);
+                    let i = 2 * cid as usize;
+                    Ok(if i + 1 < map.len() { (map[i] as usize) << 8 | map[i + 1] as usize } else { 0 })
+                }
+                Some(None) | None => Ok(cid as usize),
+            },
+            b"CIDFontType0" => match prog {
+                Program::RawCff(c) | Program::OtfCff(_, c) => {
+                    if c.is_cid {
+                        bump(&forms().cff_charset);
+                        Ok(if cid > 0xFFFF { 0 } else { c.gid_of_charset_id(cid as u16).unwrap_or(0) })
+                    } else {
+                        Ok(cid as usize) // name-keyed CFF: CIDs are glyph indices
+                    }
+                }
+                Program::Tt(_) => Err("CIDFontType0 with a glyf-flavoured font program".into()),
+            },
+            o => Err(format!("descendant /Subtype {:?}", String::from_utf8_lossy(o))),
+        }
+    }
+}
+
+/// Text-showing operators of a content stream, grouped per BT..ET, with the font in force.
+fn shown_texts(content: &[u8]) -> Result<Vec<ShownText>, String> {
+    let ops = parse_content(content)?;
+    let mut out = Vec::new();
+    let mut font: Vec<u8> = Vec::new();
+    let mut cur: Option<ShownText> = None;
+    for op in &ops {
+        match op.operator.as_slice() {
+            b"BT" => cur = Some(ShownText { font_res: font.clone(), bytes: Vec::new() }),
+            b"ET" => {
+                if let Some(c) = cur.take() {
+                    out.push(c);
+                }
+            }
+            b"Tf" => {
+                font = op.operands.first().and_then(|o| o.as_name()).map(|n| n.to_vec()).ok_or("Tf without a name")?;
+                if let Some(c) = cur.as_mut() {
+                    if c.bytes.is_empty() {
+                        c.font_res = font.clone();
+                    } else {
+                        // font change inside a text object: start a new run
+                        let done = cur.replace(ShownText { font_res: font.clone(), bytes: Vec::new() });
+                        out.extend(done);
+                    }
+                }
+            }
+            b"Tj" | b"'" | b"\"" => {
+                let s = op.operands.last().and_then(|o| o.as_str_bytes()).ok_or("Tj without a string")?;
+                cur.as_mut().ok_or("Tj outside BT..ET")?.bytes.extend_from_slice(s);
+            }
+            b"TJ" => {
+                let a = op.operands.first().and_then(|o| o.as_array()).ok_or("TJ without an array")?;
+                for e in a {
+                    if let Some(s) = e.as_str_bytes() {
+                        cur.as_mut().ok_or("TJ outside BT..ET")?.bytes.extend_from_slice(s);
+                    }
+                }
+            }
+            _ => {}
+        }
+    }
+    Ok(out)
+}
+
+// ------------------------------------------------------------------------------------
+
+/// Which syntactic forms of /W and ToUnicode the enumerated cases went through.
+#[derive(Default)]
+struct Forms {
+    w_array_form: std::sync::atomic::AtomicU64,
+    w_range_form: std::sync::atomic::AtomicU64,
+    w_default: std::sync::atomic::AtomicU64,
+    bfchar: std::sync::atomic::AtomicU64,
+    bfrange: std::sync::atomic::AtomicU64,
+    cid_to_gid_stream: std::sync::atomic::AtomicU64,
+    cff_charset: std::sync::atomic::AtomicU64,
+}
+static FORMS: std::sync::OnceLock<Forms> = std::sync::OnceLock::new();
+fn forms() -> &'static Forms {
+    FORMS.get_or_init(Forms::default)
+}
+fn bump(a: &std::sync::atomic::AtomicU64) {
+    a.fetch_add(1, std::sync::atomic::Ordering::Relaxed);
+}
+
+#[derive(Default)]
+struct Fails {
+    by_key: BTreeMap<String, (String, u32)>,
+}
+impl Fails {
+    fn add(&mut self, key: impl Into<String>, detail: impl Into<String>) {
+        let e = self.by_key.entry(key.into()).or_insert_with(|| (detail.into(), 0));
+        e.1 += 1;
+    }
+}
+
+fn show(s: &str) -> String {
+    s.chars().map(|c| if c.is_ascii_graphic() { c.to_string() } else { format!("\\u{{{:X}}}", c as u32) }).collect()
+}
+
+/// What the library extractor may add around / between separately drawn strings.
+fn matches_with_separators(extracted: &str, parts: &[&str]) -> bool {
+    // exact concatenation with whitespace-only separators between the drawn strings
+    // (the strings are drawn on different lines; the line separator is the extractor's policy)
+    fn rec(rest: &str, parts: &[&str]) -> bool {
+        match parts.split_first() {
+            None => rest.chars().all(|c| c == '\n' || c == '\r'),
+            Some((p, tail)) => {
+                // optional separator made of newline characters, then the part
+                let mut r = rest;
+                loop {
+                    if let Some(after) = r.strip_prefix(*p) {
+                        if rec(after, tail) {
+                            return true;
+                        }
+                    }
+                    match r.chars().next() {
+                        Some(c) if c == '\n' || c == '\r' => r = &r[c.len_utf8()..],
+                        _ => return false,
+                    }
+                }
+            }
+        }
+    }
+    rec(extracted, parts)
+}
+
+struct Drawn<'a> {
+    orig: &'a Original,
+    text: String,
+}
+
+fn run_case(c: &mut Ctx, drawn: &[Drawn], assert_all: bool) -> Vec<String> {
+    let ctx = drawn.iter().map(|d| format!("{}:\"{}\"", d.orig.res_name, show(&d.text))).collect::<Vec<_>>().join(" + ");
+    c.input(vx::h64(&drawn.iter().map(|d| (d.orig.res_name, d.text.clone())).collect::<Vec<_>>()));
+    if drawn.iter().any(|d| !d.text.is_empty()) {
+        c.nontrivial();
+    }
+    let mut fails = Fails::default();
+    // ---- author
+    let built = vx::guard(|| -> Result<Vec<u8>, String> {
+        let mut doc = Document::new();
+        let mut registered: Vec<&str> = Vec::new();
+        for d in drawn {
+            if !registered.contains(&d.orig.res_name) {
+                doc.add_font_from_bytes(d.orig.res_name, d.orig.data.clone()).map_err(|e| format!("add_font_from_bytes: {e}"))?;
+                registered.push(d.orig.res_name);
+            }
+        }
+        let mut page = Page::a4();
+        for (i, d) in drawn.iter().enumerate() {
+            page.text()
+                .set_font(LibFont::Custom(d.orig.res_name.to_string()), 12.0)
+                .at(50.0, 700.0 - 40.0 * i as f64)
+                .write(&d.text)
+                .map_err(|e| format!("write: {e}"))?;
+        }
+        doc.add_page(page);
+        doc.to_bytes().map_err(|e| format!("to_bytes: {e}"))
+    });
+    let bytes = match built {
+        Ok(Ok(b)) => b,
+        Ok(Err(e)) => {
+            c.fail("C13/authoring-failed", format!("{ctx}: {e}"));
+            return vec!["authoring-failed".into()];
+        }
+        Err(p) => {
+            c.fail(format!("C13/authoring-panicked@{}", vx::panic_site(&p)), format!("{ctx}: {p}"));
+            return vec!["authoring-panicked".into()];
+        }
+    };
+    let parts: Vec<&str> = drawn.iter().map(|d| d.text.as_str()).filter(|t| !t.is_empty()).collect();
+    // documented policy of the library extractor (text::extraction::sanitize_extracted_text:
+    // "Collapses multiple consecutive spaces into a single space"): the expected text for
+    // comparison (i) is the drawn text with runs of U+0020 collapsed. Comparison (ii) is exact.
+    let collapsed: Vec<String> = parts.iter().map(|p| collapse_spaces(p)).collect();
+    let lib_parts: Vec<&str> = collapsed.iter().map(|s| s.as_str()).collect();
+    let mut oh = 0u64;
+
+    // ---- (i) library extractor
+    let lib = vx::guard(|| {
+        let reader = PdfReader::new(Cursor::new(bytes.clone())).map_err(|e| format!("PdfReader: {e}"))?;
+        let doc = PdfDocument::new(reader);
+        doc.extract_text_from_page(0).map(|t| t.text).map_err(|e| format!("extract_text_from_page: {e}"))
+    });
+    match lib {
+        Ok(Ok(text)) => {
+            let ok = matches_with_separators(&text, &lib_parts);
+            oh = vx::hmix(oh, ok as u64);
+            if !ok {
+                let want: String = lib_parts.join("\n");
+                let key = classify_library_extraction(&text, &lib_parts);
+                fails.add(key, format!("drew \"{}\", TextExtractor returned \"{}\"", show(&want), show(&text)));
+            }
+        }
+        Ok(Err(e)) => fails.add("C13/library-extraction-failed", e),
+        Err(p) => fails.add(format!("C13/library-extraction-panicked@{}", vx::panic_site(&p)), p),
+    }
+
+    // ---- (ii)–(iv) independent reading
+    match independent(&bytes, drawn, &mut fails) {
+        Ok(h) => oh = vx::hmix(oh, h),
+        Err(e) => fails.add("C13/written-file-unreadable-by-reference-reader", e),
+    }
+    c.add_evaluations(drawn.iter().map(|d| d.text.chars().count() as u64).sum());
+    c.sample(json!({"drawn": ctx, "file_len": bytes.len()}));
+    let mut fh = 0u64;
+    let mut keys = Vec::new();
+    for (k, (d, n)) in fails.by_key {
+        fh = vx::hmix(fh, vx::h64(&k));
+        keys.push(format!("{k}: {d}"));
+        if assert_all {
+            c.fail(k, format!("{ctx}: {d} ({n} occurrence(s) in this case)"));
+        }
+    }
+    c.outcome(vx::hmix(oh, fh));
+    keys
+}
+
+fn collapse_spaces(s: &str) -> String {
+    let mut out = String::new();
+    for ch in s.chars() {
+        if ch == ' ' && out.ends_with(' ') {
+            continue;
+        }
+        out.push(ch);
+    }
+    out
+}
+
+/// Key for a library-extraction mismatch (narrow signatures first).
+fn classify_library_extraction(got: &str, parts: &[&str]) -> String {
+    let want_nows: String = parts.iter().flat_map(|p| p.chars()).filter(|c| !c.is_whitespace()).collect();
+    let got_nows: String = got.chars().filter(|c| !c.is_whitespace()).collect();
+    if want_nows == got_nows {
+        // only white space differs
+        "C13/library-extraction-differs-in-white-space-only".to_string()
+    } else {
+        "C13/library-extraction-differs".to_string()
+    }
+}
+
+fn independent(bytes: &[u8], drawn: &[Drawn], fails: &mut Fails) -> Result<u64, String> {
+    let f = PdfFile::parse(bytes)?;
+    let pages = f.pages()?;
+    let page = pages.first().ok_or("no page")?;
+    let content = f.page_content(page)?;
+    let shown: Vec<ShownText> = shown_texts(&content)?.into_iter().filter(|s| !s.bytes.is_empty()).collect();
+    let expected: Vec<&Drawn> = drawn.iter().filter(|d| !d.text.is_empty()).collect();
+    let mut oh = shown.len() as u64;
+    if shown.len() != expected.len() {
+        fails.add(
+            "C13/content-stream-shows-a-different-number-of-strings",
+            format!("{} non-empty text-showing runs in the content stream, {} strings drawn", shown.len(), expected.len()),
+        );
+        return Ok(oh);
+    }
+    let res = page.resources().map(|r| f.resolve(r)).ok_or("page has no /Resources")?;
+    let fonts = f.dget(&res, "Font");
+    for (st, d) in shown.iter().zip(&expected) {
+        let fd = f.resolve_opt(fonts.dict_get(&String::from_utf8_lossy(&st.font_res)));
+        if fd.is_null() {
+            fails.add("C13/font-resource-missing", format!("/{} not in /Resources /Font", String::from_utf8_lossy(&st.font_res)));
+            continue;
+        }
+        let ef = match read_font(&f, &fd) {
+            Ok(e) => e,
+            Err(e) => {
+                fails.add("C13/font-dictionary-unreadable", e);
+                continue;
+            }
+        };
+        oh = vx::hmix(oh, vx::h64(&(&ef.subtype, &ef.program_kind, ef.cid_to_gid.is_some())));
+        if ef.encoding != b"Identity-H" {
+            fails.add("C13/encoding-not-identity-h", format!("/Encoding /{}", String::from_utf8_lossy(&ef.encoding)));
+            continue;
+        }
+        if st.bytes.len() % 2 != 0 {
+            fails.add("C13/odd-number-of-bytes-under-identity-h", format!("{} bytes", st.bytes.len()));
+            continue;
+        }
+        let codes: Vec<[u8; 2]> = st.bytes.chunks(2).map(|p| [p[0], p[1]]).collect();
+        // (ii) ToUnicode
+        let mut text = String::new();
+        let mut undecodable = false;
+        match &ef.to_unicode {
+            None => {
+                fails.add("C13/no-tounicode", "Type0 font without /ToUnicode");
+                undecodable = true;
+            }
+            Some(cm) => {
+                for code in &codes {
+                    if !cm.in_codespace(code) {
+                        fails.add("C13/code-outside-tounicode-codespace", format!("<{:02X}{:02X}>", code[0], code[1]));
+                        undecodable = true;
+                        continue;
+                    }
+                    let mut cands = cm.candidates(code);
+                    cands.dedup();
+                    match cm.entries.iter().find(|e| e.covers(code)) {
+                        Some(refpdf::cmap::Entry::BfChar { .. }) => bump(&forms().bfchar),
+                        Some(_) => bump(&forms().bfrange),
+                        None => {}
+                    }
+                    match cands.as_slice() {
+                        [Value::Exact(dst)] => match refpdf::cmap::utf16be_to_string(dst) {
+                            Some(s) => text.push_str(&s),
+                            None => {
+                                fails.add("C13/tounicode-destination-not-utf16", format!("<{:02X}{:02X}> -> {:02X?}", code[0], code[1], dst));
+                                undecodable = true;
+                            }
+                        },
+                        [] => {
+                            fails.add("C13/code-missing-from-tounicode", format!("<{:02X}{:02X}> shown but not in ToUnicode", code[0], code[1]));
+                            undecodable = true;
+                        }
+                        other => {
+                            fails.add("C13/tounicode-ambiguous", format!("<{:02X}{:02X}> -> {other:?}", code[0], code[1]));
+                            undecodable = true;
+                        }
+                    }
+                }
+            }
+        }
+        if !undecodable && text != d.text {
+            fails.add(
+                "C13/independent-extraction-differs",
+                format!("drew \"{}\", content codes through ToUnicode give \"{}\"", show(&d.text), show(&text)),
+            );
+        }
+        oh = vx::hmix(oh, (text == d.text) as u64);
+        // codes ↔ characters (BMP text: one 2-byte code per character)
+        let chars: Vec<char> = d.text.chars().collect();
+        if chars.iter().any(|&ch| ch as u32 > 0xFFFF) {
+            // astral: nothing below can be pinned (no 2-byte code addresses the CID)
+            let units: Vec<u16> = d.text.encode_utf16().collect();
+            oh = vx::hmix(oh, (codes.len() == units.len()) as u64);
+            for code in &codes {
+                let cid = (code[0] as u32) << 8 | code[1] as u32;
+                let g = ef.gid_of_cid(cid).unwrap_or(0);
+                oh = vx::hmix(oh, (g != 0) as u64);
+                if g == 0 {
+                    fails.add("C13/astral-character-shown-through-codes-without-glyph", format!("CID {cid:#06x} selects .notdef"));
+                }
+            }
+            continue;
+        }
+        if codes.len() != chars.len() {
+            fails.add("C13/code-count-differs-from-character-count", format!("{} codes for {} characters", codes.len(), chars.len()));
+            continue;
+        }
+        for (code, &ch) in codes.iter().zip(&chars) {
+            let cid = (code[0] as u32) << 8 | code[1] as u32;
+            let og = d.orig.gid(ch);
+            assert!(og != 0, "alphabet character U+{:04X} not mapped by {}", ch as u32, d.orig.file);
+            // (iii) declared width
+            let adv = d.orig.program.advance(og).expect("original advance");
+            let want = adv * 1000.0 / d.orig.upem;
+            match ef.width(cid) {
+                Ok(w) => {
+                    if (w - want).abs() > 1.0 {
+                        fails.add(
+                            "C13/declared-width-differs-from-font-advance",
+                            format!("U+{:04X} CID {cid}: /W (or /DW) gives {w}, font advance {adv}/{} em = {want:.2}", ch as u32, d.orig.upem),
+                        );
+                    }
+                }
+                Err(e) => fails.add("C13/w-array-malformed", e),
+            }
+            // (iv) glyph presence and identity
+            match ef.gid_of_cid(cid) {
+                Err(e) => fails.add("C13/embedded-font-program-unusable", e),
+                Ok(g) => {
+                    let prog = ef.program.as_ref().unwrap();
+                    if g >= prog.num_glyphs() {
+                        fails.add(
+                            "C13/cid-maps-to-glyph-outside-embedded-program",
+                            format!("U+{:04X} CID {cid} -> glyph {g}, embedded program has {}", ch as u32, prog.num_glyphs()),
+                        );
+                        continue;
+                    }
+                    let a = d.orig.program.shape(og).expect("original outline");
+                    match prog.shape(g) {
+                        Ok(b) => {
+                            if let Some(diff) = a.diff(&b) {
+                                let key = if g == 0 {
+                                    if matches!(prog, Program::RawCff(c) if c.is_cid) && shares_glyph_with_another_drawn_char(d, ch) {
+                                        // KF signature: CFF charset holds ONE CID per glyph
+                                        "C13/cff-charset-keeps-one-cid-per-glyph-other-code-point-gets-notdef"
+                                    } else {
+                                        "C13/cid-selects-notdef-in-embedded-program"
+                                    }
+                                } else {
+                                    "C13/embedded-glyph-outline-differs-from-original"
+                                };
+                                fails.add(key, format!("U+{:04X} CID {cid} -> embedded glyph {g} vs original glyph {og}: {diff}", ch as u32));
+                            }
+                        }
+                        Err(e) => fails.add("C13/embedded-glyph-undecodable", format!("U+{:04X} CID {cid} -> glyph {g}: {e}", ch as u32)),
+                    }
+                    if let Ok(ea) = prog.advance(g) {
+                        if g != 0 && ea != adv {
+                            fails.add("C13/embedded-glyph-advance-differs-from-original", format!("U+{:04X}: embedded {ea}, original {adv}", ch as u32));
+                        }
+                    }
+                }
+            }
+        }
+    }
+    Ok(oh)
+}
+
+/// Is there another drawn character (same string) that the original font maps to the same glyph?
+fn shares_glyph_with_another_drawn_char(d: &Drawn, ch: char) -> bool {
+    let g = d.orig.gid(ch);
+    d.text.chars().any(|o| o != ch && d.orig.gid(o) == g)
+}
+
+fn strings_upto(len: usize, alphabet: &[char]) -> Vec<String> {
+    let mut out = vec![String::new()];
+    let mut prev = vec![String::new()];
+    for _ in 0..len {
+        let mut next = Vec::new();
+        for p in &prev {
+            for &c in alphabet {
+                let mut s = p.clone();
+                s.push(c);
+                next.push(s);
+            }
+        }
+        out.extend(next.iter().cloned());
+        prev = next;
+    }
+    out
+}
+
+pub fn run(rep: &mut Report) {
+    let thorough = rep.tier.is_thorough();
+    // Every case clones the 0.3-0.5 MB font several times inside the library; with the default
+    // glibc thresholds each clone is an mmap/munmap pair and 16 threads serialise on the
+    // address-space lock. Serve those buffers from the arenas instead (process-local tuning).
+    unsafe {
+        libc::mallopt(libc::M_MMAP_THRESHOLD, 16 << 20);
+        libc::mallopt(libc::M_TRIM_THRESHOLD, 256 << 20);
+        libc::mallopt(libc::M_TOP_PAD, 16 << 20);
+    }
+    rep.rule(
+        "case = (font(s), drawn string(s)); every string of length 0..=3 over the 8-character alphabet is enumerated per font, \
+         and every pair of shorter strings for the two-font page; non-trivial = at least one non-empty string is drawn; \
+         distinct input = (font, string) tuple",
+    );
+    rep.assume("refpdf::file/content/cmap read the written PDF correctly; refpdf::ttf/cff read font programs correctly (validated on every glyph of both bundled fonts)");
+    rep.assume("strings drawn by separate write() calls at different baselines may be separated by newline characters in the library's extracted text; nothing else may be added, dropped or changed");
+    rep.assume("a width agrees when it is within 1 unit of advance*1000/unitsPerEm (either rounding convention)");
+
+    let roboto = Original::bundled("Roboto", "Roboto-Regular.ttf");
+    let sans = Original::bundled("SourceSans3", "SourceSans3-Regular.otf");
+    for o in [&roboto, &sans] {
+        for ch in ALPHABET.iter().chain([ASTRAL].iter()) {
+            assert!(o.gid(*ch) != 0, "{} does not map U+{:04X}", o.file, *ch as u32);
+        }
+    }
+    let s3 = strings_upto(3, &ALPHABET);
+    let s2 = strings_upto(2, &ALPHABET);
+
+    rep.explore("one-font", Explore::full(), |c: &mut Ctx| {
+        let fi = c.choose("font", 2);
+        let si = c.choose("string", s3.len());
+        let orig = if fi == 0 { &roboto } else { &sans };
+        let _ = run_case(c, &[Drawn { orig, text: s3[si].clone() }], true);
+    });
+
+    let len3: Vec<String> = s3[s2.len()..].to_vec();
+    rep.explore("two-fonts", Explore::full(), |c: &mut Ctx| {
+        let (a, b) = if !thorough {
+            let i = c.choose("roboto_string", s2.len());
+            let j = c.choose("sourcesans_string", s2.len());
+            (s2[i].clone(), s2[j].clone())
+        } else if !c.flag("sourcesans_has_length_3") {
+            let i = c.choose("roboto_string", s3.len());
+            let j = c.choose("sourcesans_string", s2.len());
+            (s3[i].clone(), s2[j].clone())
+        } else {
+            let i = c.choose("roboto_string", s2.len());
+            let j = c.choose("sourcesans_string", len3.len());
+            (s2[i].clone(), len3[j].clone())
+        };
+        let _ = run_case(c, &[Drawn { orig: &roboto, text: a }, Drawn { orig: &sans, text: b }], true);
+    });
+
+    // ---- astral characters: recorded, not asserted
+    let astral_strings: Vec<String> = strings_upto(2, &['1', ASTRAL]).into_iter().filter(|s| s.contains(ASTRAL)).collect();
+    let astral_log: std::sync::Mutex<BTreeMap<String, Vec<String>>> = std::sync::Mutex::new(BTreeMap::new());
+    rep.explore("astral", Explore::full(), |c: &mut Ctx| {
+        let fi = c.choose("font", 2);
+        let si = c.choose("string", astral_strings.len());
+        let orig = if fi == 0 { &roboto } else { &sans };
+        let keys = run_case(c, &[Drawn { orig, text: astral_strings[si].clone() }], false);
+        astral_log.lock().unwrap().insert(format!("{} \"{}\"", orig.res_name, show(&astral_strings[si])), keys);
+    });
+    rep.note("astral_observations", json!(*astral_log.lock().unwrap()));
+    let ld = |a: &std::sync::atomic::AtomicU64| a.load(std::sync::atomic::Ordering::Relaxed);
+    let fm = forms();
+    rep.note(
+        "forms_exercised",
+        json!({"W c [w..]": ld(&fm.w_array_form), "W cfirst clast w": ld(&fm.w_range_form), "W absent -> DW": ld(&fm.w_default),
+               "ToUnicode bfchar": ld(&fm.bfchar), "ToUnicode bfrange": ld(&fm.bfrange),
+               "CIDToGIDMap stream lookups": ld(&fm.cid_to_gid_stream), "CFF charset lookups": ld(&fm.cff_charset)}),
+    );
+    rep.note(
+        "astral",
+        json!("strings containing U+1F16A (mapped by both fonts) are written as UTF-16 surrogate pairs = two 2-byte Identity-H codes; no CID above 0xFFFF is addressable, so nothing is asserted for them; their outcomes are counted in section 'astral'"),
+    );
+}
